@@ -177,13 +177,16 @@ def basicFmt (c : Char) (sep2 : Option Str) (ld : Char) : Fmt :=
 
 def simpleFmt (c : Char) : Fmt := basicFmt c none '['
 
+def plusStr (f : Fmt) : Str := match f.plus with | some c => [c] | none => []
+def delimStr (f : Fmt) : Str := match f.ldelim with | some d => if f.plus = some d then [] else [d] | none => []
+def widthStr (f : Fmt) : Str := match f.width with | some w => natStr 10 false w | none => []
+def precStr (f : Fmt) : Str := match f.prec with | some p => '.' :: natStr 10 false p | none => []
+
+/-- `unParse`: `%`, `0`, the sign flag, `-`, the delimiter (unless it is the blank that doubles as the sign flag), `#`,
+    width, `.precision`, letter -/
 def unParse (f : Fmt) : Str :=
-  ['%'] ++ (if f.zeroPad then ['0'] else []) ++ (match f.plus with | some c => [c] | none => []) ++
-  (if f.left then ['-'] else []) ++
-  (match f.ldelim with | some d => if f.plus = some d then [] else [d] | none => []) ++
-  (if f.alt then ['#'] else []) ++
-  (match f.width with | some w => natStr 10 false w | none => []) ++
-  (match f.prec with | some p => '.' :: natStr 10 false p | none => []) ++ [f.letter]
+  ['%'] ++ (if f.zeroPad then ['0'] else []) ++ plusStr f ++ (if f.left then ['-'] else []) ++ delimStr f ++
+  (if f.alt then ['#'] else []) ++ widthStr f ++ precStr f ++ [f.letter]
 
 def replaceFormatChar (f : Fmt) (c : Char) : Fmt :=
   let nf := { f with letter := c }
@@ -397,22 +400,51 @@ def padNumber (f : Fmt) (s : Str) : Str :=
       | [] => zeros pad
     else spaces pad ++ s
 
-/-- `floatGFormat` given the digit strings -/
-def floatGFormat (io : FloatIO) (f : Fmt) (bits : Nat) : Str :=
-  let str := io.sprintf (goFormat (withoutWidth f)) bits
+/-- the float verbs of fmt that pcore uses -/
+def isGoFloatVerb (c : Char) : Bool := c = 'e' || c = 'E' || c = 'f' || c = 'g' || c = 'G'
+
+/-- `fmt.Sprintf(format, float64)`: the format must be one float directive, otherwise fmt answers with a `%!` marker
+    (modelled as a fault) -/
+def sprintfF (io : FloatIO) (fm : Str) (bits : Nat) : Except FaultKind Str :=
+  match goParse fm with
+  | none => .error .goFmtNoVerb
+  | some g => if isGoFloatVerb g.verb then .ok (io.sprintf fm bits) else .error .goFmtBadVerb
+
+/-- floatGFormat's precision: the given one, else 6 unless `#` -/
+def gPrc (f : Fmt) : Int :=
+  match f.prec with
+  | some p => p
+  | none => if f.alt then -1 else 6
+
+/-- how many zeros are `missing` after the digits `%g` printed -/
+def gMissing (f : Fmt) (str : Str) : Int :=
+  if gPrc f ≥ 0 then (if str.contains '.' then gPrc f - ((str.length : Int) - 1) else gPrc f - str.length) else 0
+
+/-- "Impossible to add a fraction part. Force scientific notation" -/
+def gForced (f : Fmt) (str : Str) : Bool := decide (gPrc f ≥ 0) && !str.contains '.' && decide (gMissing f str = 0)
+
+/-- the digits with the decimal point and the trailing zeros restored -/
+def gRestored (f : Fmt) (str : Str) : Str :=
+  str ++ (if str.contains '.' then [] else '.' :: (if gMissing f str = 0 then ['0'] else [])) ++ zeros (gMissing f str).toNat
+
+/-- the part of `floatGFormat` after the first Sprintf: scientific notation is only padded; otherwise the fraction is
+    restored, or scientific notation is forced with a second Sprintf -/
+def floatGRest (io : FloatIO) (f : Fmt) (bits : Nat) (str : Str) : Except FaultKind Str :=
   let sc : Char := if f.letter = 'G' then 'E' else 'e'
-  if str.contains sc then padNumber f str
-  else
-    let totLen : Int := str.length
-    let prc : Int := match f.prec with
-      | some p => p
-      | none => if f.alt then -1 else 6
-    let hasDot := str.contains '.'
-    let missing : Int := if prc ≥ 0 then (if hasDot then prc - (totLen - 1) else prc - totLen) else 0
-    if prc ≥ 0 ∧ !hasDot ∧ missing = 0 then io.sprintf (goFormat (replaceFormatChar f sc)) bits
-    else
-      let b := str ++ (if hasDot then [] else '.' :: (if missing = 0 then ['0'] else []))
-      padNumber f (b ++ zeros missing.toNat)
+  if str.contains sc then .ok (padNumber f str)
+  else if gForced f str then sprintfF io (goFormat (replaceFormatChar f sc)) bits
+  else .ok (padNumber f (gRestored f str))
+
+/-- `floatGFormat` given the digit strings -/
+def floatGFormat (io : FloatIO) (f : Fmt) (bits : Nat) : Except FaultKind Str :=
+  match sprintfF io (goFormat (withoutWidth f)) bits with
+  | .ok str => floatGRest io f bits str
+  | .error k => .error k
+
+def exceptRes (r : Except FaultKind Str) (k : Str → Str) : Res :=
+  match r with
+  | .ok s => .text (k s)
+  | .error e => .fault e
 
 def defaultFormatP : Fmt :=
   { alt := false, left := false, zeroPad := false, letter := 'g', plus := none, prec := none, width := none,
@@ -470,13 +502,10 @@ def fmtIntCore (f : Fmt) (i : Int) : Res :=
 /-- `floatValue.ToString` -/
 def fmtFloat (io : FloatIO) (f : Fmt) (bits : Nat) : Res :=
   if isRadixLetter f.letter then fmtIntCore f (io.toInt bits)
-  else if f.letter = 'p' then .text (applyStringFlags f (floatGFormat io defaultFormatP bits) false)
-  else if f.letter = 'e' || f.letter = 'E' || f.letter = 'f' then
-    match goParse (goFormat f) with
-    | none => .fault .goFmtNoVerb
-    | some _ => .text (io.sprintf (goFormat f) bits)
-  else if f.letter = 'g' || f.letter = 'G' then .text (floatGFormat io f bits)
-  else if f.letter = 's' then .text (applyStringFlags f (floatGFormat io defaultFormatS bits) f.alt)
+  else if f.letter = 'p' then exceptRes (floatGFormat io defaultFormatP bits) (fun s => applyStringFlags f s false)
+  else if f.letter = 'e' || f.letter = 'E' || f.letter = 'f' then exceptRes (sprintfF io (goFormat f) bits) id
+  else if f.letter = 'g' || f.letter = 'G' then exceptRes (floatGFormat io f bits) id
+  else if f.letter = 's' then exceptRes (floatGFormat io defaultFormatS bits) (fun s => applyStringFlags f s f.alt)
   else .reported .unsupported
 
 /-- `integerValue.ToString` -/
